@@ -489,16 +489,43 @@ Proof.
   destruct (Hmain eq_refl c0 rest Ecsg Hc0 Hle) as [H _]. exact H.
 Qed.
 
+(* the cursor's own segment = the chain up to the junction, then the undone path oldest first *)
+Lemma through_forked_structure : forall s hd sg c csg reach path j,
+  wf_state s -> head_chain s hd sg -> cursor_numbered (db s) c ->
+  complete_segment (db s) (cu_blk c) = Some (csg, reach) ->
+  branch_to (db s) sg (ri (cu_blk c)) path j ->
+  exists lo xj hi, sg = lo ++ xj :: hi /\ sid xj = j /\ find j (store (db s)) = Some (sent xj) /\
+                   csg = lo ++ xj :: rev path.
+Proof.
+  intros s hd sg c csg reach path j W HC Hnum E B.
+  destruct (head_chain_good s hd sg W HC) as [G [Hstored _]].
+  pose proof W as [[Wst _] _].
+  pose proof (branch_to_junction _ _ _ _ _ B) as Hj.
+  apply block_in_spec in Hj. destruct Hj as [xj [Hxj Hxji]].
+  apply in_split in Hxj. destruct Hxj as [lo [hi Esg]].
+  assert (Hfj : find j (store (db s)) = Some (sent xj)).
+  { rewrite <- Hxji. apply Hstored. rewrite Esg. apply in_app_iff. right. left. reflexivity. }
+  exists lo, xj, hi. split; [exact Esg|]. split; [exact Hxji|]. split; [exact Hfj|].
+  destruct (numbered_segment_good (db s) (cu_blk c) csg reach Wst E Hnum) as [_ [_ [Cc _]]].
+  pose proof HC as [_ [_ Eh]].
+  pose proof (segment_of_chain_to _ _ _ _ (complete_segment_segment_of _ _ _ _ Eh)) as Ch.
+  rewrite Esg in Ch. apply chain_to_prefix in Ch.
+  assert (Hxn : snum xj = num_or0 (db s) j).
+  { rewrite (num_or0_stored _ _ _ Hfj). destruct G as [Hstd _ _ _]. apply (std_num _ Hstd).
+    rewrite Esg. apply in_app_iff. right. left. reflexivity. }
+  rewrite Hxji, Hxn in Ch.
+  pose proof (branch_chain _ _ _ _ _ B _ Ch) as Cb.
+  destruct (branch_to_head _ _ _ _ _ B) as [e [rest [Hfe _]]].
+  rewrite (num_or0_stored _ _ _ Hfe), (Hnum e Hfe) in Cb.
+  rewrite (chain_to_det _ _ _ _ Cb _ Cc). rewrite <- app_assoc. reflexivity.
+Qed.
+
 Lemma c05_through_forked_burst_proof : C05_through_forked_burst.
 Proof.
   intros s hd sg start c csg path j W HC Hst Hin Hnum E Hcst Hle Hlib B.
   destruct (head_chain_good s hd sg W HC) as [G [Hstored _]].
   pose proof W as [[Wst _] _].
-  pose proof (branch_to_junction _ _ _ _ _ B) as Hj.
-  pose proof Hj as Hj'. apply block_in_spec in Hj'. destruct Hj' as [xj [Hxj Hxji]].
-  apply in_split in Hxj. destruct Hxj as [lo [hi Esg]].
-  assert (Hfj : find j (store (db s)) = Some (sent xj)).
-  { rewrite <- Hxji. apply Hstored. rewrite Esg. apply in_app_iff. right. left. reflexivity. }
+  destruct (through_forked_structure s hd sg c csg true path j W HC Hnum E B) as [lo [xj [hi [Esg [Hxji [Hfj Ecsg]]]]]].
   exists (sent xj). split; [exact Hfj|]. cbn zeta. split.
   - rewrite (through_forked_eq s hd sg start c csg W HC Hst Hin Hnum E Hcst Hle).
     destruct (starts_within_cons _ _ Hst) as [s0 [rest [Es0 _]]].
@@ -508,19 +535,7 @@ Proof.
     change (fuel_of (db s)) with (S (S (length (store (db s))))).
     rewrite (loop_forked s hd sg c (length (store (db s))) Wst Hstored Hlin Hin path j (sent xj) B Hfj).
     reflexivity.
-  - exists lo, xj, hi. split; [exact Esg|]. split; [exact Hxji|].
-    destruct (numbered_segment_good (db s) (cu_blk c) csg true Wst E Hnum) as [_ [_ [Cc _]]].
-    pose proof HC as [_ [_ Eh]].
-    pose proof (segment_of_chain_to _ _ _ _ (complete_segment_segment_of _ _ _ _ Eh)) as Ch.
-    rewrite Esg in Ch. apply chain_to_prefix in Ch.
-    assert (Hxn : snum xj = num_or0 (db s) j).
-    { rewrite (num_or0_stored _ _ _ Hfj). destruct G as [Hstd _ _ _]. apply (std_num _ Hstd).
-      rewrite Esg. apply in_app_iff. right. left. reflexivity. }
-    rewrite Hxji, Hxn in Ch.
-    pose proof (branch_chain _ _ _ _ _ B _ Ch) as Cb.
-    destruct (branch_to_head _ _ _ _ _ B) as [e [rest [Hfe _]]].
-    rewrite (num_or0_stored _ _ _ Hfe), (Hnum e Hfe) in Cb.
-    rewrite (chain_to_det _ _ _ _ Cb _ Cc). rewrite <- app_assoc. reflexivity.
+  - exists lo, xj, hi. auto.
 Qed.
 
 (* ---------------------------------------------------------------- 3. hub.SourceThroughCursor *)
